@@ -386,7 +386,7 @@ func runC11(c *Ctx) {
 					continue
 				}
 				v := r.Vals[0]
-				okV := v.Op == "bin" && v.Aux == "+" && v.Args[0].Op == "loopphi" && v.Args[1].Op == "convert" && v.Args[1].Args[0].Op == "slice" && v.Args[1].Args[0].Args[0] == buf && v.Args[1].Args[0].Args[2] == idx
+				okV := v.Op == "bin" && v.Aux == "+" && (v.Args[0].Op == "loopphi" || v.Args[0].Op == "loopval") && v.Args[1].Op == "convert" && v.Args[1].Args[0].Op == "slice" && v.Args[1].Args[0].Args[0] == buf && v.Args[1].Args[0].Args[2] == idx
 				if !okV && bad == "" {
 					bad = "the line returned at the newline is " + clip(u.Show(v), 100) + ", documented: everything accumulated from earlier blocks + buffer[:newline] (a line longer than one 4 KiB block otherwise loses its beginning)"
 				}
